@@ -15,8 +15,23 @@ use std::collections::HashSet;
 
 const KEY: &str = "k";
 
+/// Replica ids of the three nodes of a run.  The specification only compares ids, so the trace carries
+/// their ranks 1..3; the code under test sees the real ones: small, congruent modulo 2^16 (ids of the
+/// form region<<16|node), beyond 32 bits, and at the top of the u64 range.
+pub const IDSETS: [[u64; 3]; 4] = [[1, 2, 3], [1, 65537, 131073], [7, (1 << 32) + 7, (1 << 33) + 7], [(1 << 63) + 5, (1 << 63) + 65536 + 5, u64::MAX - 1]];
+thread_local! {
+    static RIDS: std::cell::RefCell<Vec<u64>> = std::cell::RefCell::new(Vec::new());
+}
+pub fn set_rids(ids: &[u64]) {
+    RIDS.with(|r| *r.borrow_mut() = ids.to_vec());
+}
+/// the rank of a replica id among the ids of the current run (ids outside it are left alone)
+pub fn rid_out(id: u64) -> u64 {
+    RIDS.with(|r| r.borrow().iter().position(|x| *x == id).map(|p| p as u64 + 1).unwrap_or(id))
+}
+
 fn stamp(c: &LamportClock) -> Value {
-    json!([c.time, c.replica_id.0])
+    json!([c.time, rid_out(c.replica_id.0)])
 }
 
 fn sds_str(s: &SDS) -> String {
@@ -43,7 +58,7 @@ fn counts(v: &Value) -> Value {
         .as_object()
         .map(|m| {
             m.iter()
-                .map(|(k, n)| (k.parse::<u64>().unwrap(), n.as_u64().unwrap()))
+                .map(|(k, n)| (rid_out(k.parse::<u64>().unwrap()), n.as_u64().unwrap()))
                 .filter(|(_, n)| *n != 0)
                 .collect()
         })
@@ -81,7 +96,7 @@ pub fn obs(rv: &ReplicatedValue) -> Value {
                 .map(|x| {
                     let mut tags: Vec<(u64, u64)> = o
                         .get_tags(x)
-                        .map(|t| t.iter().map(|u| (u.replica_id.0, u.sequence)).collect())
+                        .map(|t| t.iter().map(|u| (rid_out(u.replica_id.0), u.sequence)).collect())
                         .unwrap_or_default();
                     tags.sort();
                     json!([x, tags.iter().map(|(r, s)| json!([r, s])).collect::<Vec<_>>()])
@@ -110,7 +125,10 @@ struct Node {
 
 impl Node {
     fn new(r: u64) -> Node {
-        Node { st: ShardReplicaState::new(ReplicaId::new(r), ConsistencyLevel::Eventual) }
+        Node::with(r, false)
+    }
+    fn with(r: u64, causal: bool) -> Node {
+        Node { st: ShardReplicaState::new(ReplicaId::new(r), if causal { ConsistencyLevel::Causal } else { ConsistencyLevel::Eventual }) }
     }
     fn val(&self) -> Option<&ReplicatedValue> {
         self.st.get_replicated(KEY)
@@ -243,8 +261,12 @@ pub fn final_values(ops: &[Value]) -> Vec<(u64, ReplicatedValue)> {
 }
 
 fn run_scenario(run: usize, ops: &[Value], out: &mut Out) {
-    let mut nodes: Vec<Node> = (1..=3).map(Node::new).collect();
-    out.emit(&json!({"a": "reset", "run": run}));
+    // the replica ids and the consistency level rotate over the runs
+    let ids = IDSETS[run % IDSETS.len()];
+    let causal = run % 3 == 1;
+    set_rids(&ids);
+    let mut nodes: Vec<Node> = ids.iter().map(|r| Node::with(*r, causal)).collect();
+    out.emit(&json!({"a": "reset", "run": run, "causal": causal, "idset": run % IDSETS.len()}));
     for (i, ev) in ops.iter().enumerate() {
         let mut rec = ev.clone();
         let res = catch(|| apply(&mut nodes, ev));
@@ -259,6 +281,7 @@ fn run_scenario(run: usize, ops: &[Value], out: &mut Out) {
         }
         out.emit(&rec);
     }
+    set_rids(&[]);
 }
 
 /// Random operation sequences that respect the guards of the spec's actions.
